@@ -2130,6 +2130,8 @@ int32_t pstm_exptmod(psPool_t *pool, const pstm_int *G, const pstm_int *X,
             Y->dp[x] = 0;
         }
         Y->used = P->used;
+        /* the result is in [0, P): do not keep the sign of the previous value */
+        Y->sign = PSTM_ZPOS;
         if (Y->used > Y->alloc)
         {
             if (pstm_grow(Y, Y->used) != PSTM_OKAY)
